@@ -33,6 +33,7 @@
 EXTENDS Integers, Sequences, FiniteSets, TLC
 
 CONSTANTS MaxBase,     \* number of entries of BaseExp in scope (6 = up to 2^127, 9 = all)
+          MaxOff,      \* whole numbers x-MaxOff .. x+MaxOff around every big landmark x (1 or 2)
           RecDepth     \* 0 = flat records only, 1 = records with one nested record
 
 -----------------------------------------------------------------------------
@@ -69,8 +70,8 @@ Hi(k) == CASE k = "i32" -> N(B31, -2) [] k = "i64" -> N(B63, -2) [] k = "u32" ->
 I128Lo == N(-B127, 0)
 I128Hi == N(B127, -2)
 
-\* whole numbers of the pool: x-1, x, x+1 around every landmark, -2..2 around 0
-WholeNums == {N(g, u) : g \in (-MaxBase..MaxBase) \ {0}, u \in {-2, 0, 2}} \cup {N(0, u) : u \in {-4, -2, 0, 2, 4}}
+\* whole numbers of the pool: x-MaxOff .. x+MaxOff around every landmark x, -2..2 around 0
+WholeNums == {N(g, 2 * o) : g \in (-MaxBase..MaxBase) \ {0}, o \in -MaxOff..MaxOff} \cup {N(0, u) : u \in {-4, -2, 0, 2, 4}}
 
 InKind(k, x) ==
     CASE k \in IntKinds -> ~Lt(x, Lo(k)) /\ ~Lt(Hi(k), x)
@@ -86,7 +87,7 @@ Representable(x) ==
       ELSE /\ x.t = 0
            /\ LET e == Exp(x.g) IN
               \/ e \in {31, 32} /\ x.u \in -2..2
-              \/ e = 53 /\ (IF x.g > 0 THEN x.u \in {-2, 0, 4} ELSE x.u \in {-4, 0, 2})   \* spacing 1 below 2^53, 2 above
+              \/ e = 53 /\ (IF x.g > 0 THEN x.u \in {-4, -2, 0, 4} ELSE x.u \in {-4, 0, 2, 4})   \* spacing 1 below 2^53, 2 above
               \/ e \in {63, 64, 127, 128, 1023} /\ x.u = 0
 FloatNums == {x \in [g : -MaxBase..MaxBase, u : -4..4, t : -2..2] : Representable(x)}
 
@@ -157,7 +158,7 @@ ToF64(x) ==
          CASE e \in {31, 32} -> Float("fin", x)
            [] e = 53 -> IF x.g > 0 /\ x.u = 2 THEN Float("fin", N(x.g, 0))          \* 2^53 + 1 is a tie: to even
                         ELSE IF x.g < 0 /\ x.u = -2 THEN Float("fin", N(x.g, 0))
-                        ELSE Float("fin", x)
+                        ELSE Float("fin", x)                                        \* 2^53 - 2 .. 2^53, 2^53 + 2: exact
            [] e \in {63, 64, 127, 128, 1023} -> Float("fin", N(x.g, 0))
            [] e = 1024 -> IF x.g > 0 THEN PInf ELSE NInf
 
@@ -171,9 +172,11 @@ FCmp(x, y) ==
 
 \* (x - y).abs() < f64::EPSILON for two floats, neither NaN
 WithinEpsilon(x, y) ==
-    /\ x.sp \in {"fin", "negz"} /\ y.sp \in {"fin", "negz"}      \* inf - inf = NaN, inf - x = inf
-    /\ x.g = 0 /\ y.g = 0 /\ x.u = y.u
-    /\ (x.u = 0 \/ Abs(x.t - y.t) < 2)
+    /\ x.sp \in {"fin", "negz"} /\ y.sp \in {"fin", "negz"}      \* inf - inf = NaN, inf - x = inf: never < EPSILON
+    /\ x.g = y.g /\ x.u = y.u
+    /\ \/ x.t = y.t                                             \* the same number (incl. 0.0 and -0.0)
+       \/ x.g = 0 /\ x.u = 0                                     \* two tiny numbers around 0
+       \/ x.g = 0 /\ x.u = 2 /\ Abs(x.t - y.t) < 2                \* around 1.0: t counts units of 2^-53 = EPSILON/2
 
 \* `y as i64`: NaN -> 0, saturating, truncation toward zero
 Trunc(x) ==
@@ -281,13 +284,14 @@ EqM(a, b) ==
       [] a.k = "data" -> b.k = "data" /\ a.d = b.d
 
 (* M. Hash for Value: do a and b feed the same bytes to the hasher? *)
+\* what is fed to the hasher for a float: write_u64(0) for every NaN - the bits of +0.0 -, else to_bits()
+FBits(x) == IF x.sp = "nan" THEN <<"fin", Zero>> ELSE <<x.sp, NumOf(x)>>
 FitsI128(x) == ~Lt(x, I128Lo) /\ ~Lt(I128Hi, x)
 RECURSIVE HashEqM(_, _)
 HashEqM(a, b) ==
     CASE a.k \in WholeKinds -> /\ b.k \in WholeKinds                  \* INT_HASH + i128, or BIGINT_HASH + BigInt
                                /\ Sgn(NumOf(a), NumOf(b)) = 0
-      [] a.k = "f64" -> b.k = "f64" /\ (IF a.sp = "nan" THEN b.sp = "nan"       \* write_u64(0) for every NaN
-                                        ELSE a.sp = b.sp /\ NumOf(a) = NumOf(b)) \* to_bits(): -0.0 differs from 0.0
+      [] a.k = "f64" -> b.k = "f64" /\ FBits(a) = FBits(b)
       [] a.k = "record" -> /\ b.k = "record" /\ Len(a.attrs) = Len(b.attrs) /\ Len(a.items) = Len(b.items)
                            /\ \A i \in 1..Len(a.attrs) : a.attrs[i].name = b.attrs[i].name /\ HashEqM(a.attrs[i].value, b.attrs[i].value)
                            /\ \A i \in 1..Len(a.items) : /\ a.items[i].slot = b.items[i].slot
